@@ -518,8 +518,38 @@ def wsum_of(t):
     return None
 
 
+PRODFORM = ("geometric mean computed as prod(x) ** (1/n) instead of exp(mean(log x)): the product under/overflows "
+            "(witness: a perfect forecast over n >= 21 steps gives EPS**n == 0.0 instead of the documented EPS floor)")
+
+
+def prodform_of(t):
+    """(data, axis) if ``t`` is np.power(np.prod(x, axis=A), 1 / x.shape[A]) (or 1 / len(x) for A == 0)."""
+    if not (S.is_call_to(t, "numpy.power") and not t[2]):
+        return None
+    kw = dict(t[3])
+    pr, ex = kw.get("x1"), kw.get("x2")
+    if pr is None or ex is None or not (S.is_call_to(pr, "numpy.prod") and not pr[2]) or "a" not in dict(pr[3]):
+        return None
+    x, axis = dict(pr[3])["a"], dict(pr[3]).get("axis", NONE)
+    counts = [("idx", ("attr", x, "shape"), axis)]
+    if axis == K(0):
+        counts.append(("call", F("builtins.len"), (x,), ()))
+    if ex[0] == "prod" and not ex[1] and len(ex[2]) == 1 and ex[2][0] in counts:
+        return x, axis
+    return None
+
+
 def agg_of(t):
     """(family, data, weight-or-'NOSLOT', axis, extras) if ``t`` is an aggregator call."""
+    if S.is_call_to(t, "numpy.exp") and not t[2] and [k for k, _ in t[3]] == ["x"]:
+        m = t[3][0][1]  # exp(mean(log x, axis)): the log-domain geometric mean (what scipy.stats.gmean computes)
+        if S.is_call_to(m, "numpy.mean") and not m[2] and set(dict(m[3])) <= {"a", "axis"} and "a" in dict(m[3]):
+            lg = dict(m[3])["a"]
+            if S.is_call_to(lg, "numpy.log") and not lg[2] and [k for k, _ in lg[3]] == ["x"]:
+                return "geometric_mean", lg[3][0][1], "NOSLOT", dict(m[3]).get("axis", NONE), {}, "exp(mean(log x))"
+    pf = prodform_of(t)
+    if pf is not None:
+        return PRODFORM, pf[0], "NOSLOT", pf[1], {}, "prod ** (1/n)"
     ws = wsum_of(t)
     if ws is not None:
         return WSUM, ws[1], ws[0], ws[2], {}, "weighted sum"
@@ -560,18 +590,23 @@ def decompose_direct(w, t):
             del kw["axis"]  # the per-output errors are one-dimensional
         if cand is not None and set(kw) <= ({"a", "weights"} if t[1][1] == "numpy.average" else {"a"}):
             probe = cand
-            if _unary(probe) is not None:
+            if agg_of(probe) is None and _unary(probe) is not None:
                 probe = _unary(probe)[1]
             if agg_of(probe) is not None:
                 sh.final = kw.get("weights", NONE)
                 inner = cand
     sh.sqrt = False
     sh.post = None
-    u = _unary(inner)
+    u = _unary(inner) if agg_of(inner) is None else None
     if u is not None and agg_of(u[1]) is not None:
         sh.post, inner = u
         sh.sqrt = sh.post == "numpy.sqrt"
     a = agg_of(inner)
+    if a is None and inner[0] == "call" and inner[1][0] == "f" and inner[1][1].startswith("sktime."):
+        raise Undecidable("the horizon aggregator is the repo-local function %s, whose body the executor cannot reduce to the "
+                          "operator table (np.average / np.mean / np.median / sklearn _weighted_percentile / scipy gmean / "
+                          "_weighted_geometric_mean): the library operator is trusted, a local re-implementation is not and "
+                          "its numeric contract (tie rule, under/overflow) is outside static reach" % show(inner[1]))
     if a is None:
         raise Undecidable("no aggregator call (np.average / np.mean / np.median / _weighted_percentile / gmean / "
                           "_weighted_geometric_mean) found in %s" % show(inner)[:160])
